@@ -19,6 +19,8 @@ byprop={}
 for l in fixed:
     p=re.search(r'property=(C\d+)',l).group(1); parts=l.split(' ',3); byprop.setdefault(p,[]).append(parts[3].strip() if len(parts)>3 else l)
 fixed_list="\n".join(f"* **{p}** ({len(v)}): "+"; ".join(re.sub(r'\s*\(C\d+\|.*?\)\s*$','',x)[:170] for x in v) for p,v in sorted(byprop.items()))
+nmiss=sum(1 for r in rows if 'missed at first' in r)
+t=t.replace('@@NSEEDS@@',str(len(rows))).replace('@@NCAUGHT@@',str(len(rows)-nmiss)).replace('@@NMISSED@@',str(nmiss))
 t=t.replace('@@NFIXED@@',str(len(fixed))).replace('@@NOPEN@@',str(len(opens))).replace('@@FIXED_LIST@@',fixed_list).replace('@@OPEN_LIST@@',open_list).replace('@@SEED_TABLE@@',seed_table).replace('@@SEC5@@',sec5)
 open('DESIGN.md','w').write(t)
 print(len(t.splitlines()),'lines')
